@@ -30,3 +30,11 @@ mod status;
 mod ui;
 mod validity;
 
+
+// Exposure of the request dispatcher for verification harnesses.
+#[cfg(routinator_verif)]
+pub mod verif {
+    pub use super::dispatch::State;
+    pub use super::request::Request;
+    pub use super::response::Response;
+}
